@@ -806,7 +806,7 @@ impl<'a> Gen<'a> {
         let (ex, ey) = (esc(&x), esc(&y));
         // a long alternation (9-14 branches) mixing plain and tree-terminated branches, behind a
         // literal prefix, inside a repetition, or bare
-        if self.rng.chance(2, 100) {
+        if self.rng.chance(4, 100) {
             let k = self.rng.range(9, 14);
             let mut branches: Vec<String> = (0..k)
                 .map(|i| {
@@ -826,7 +826,7 @@ impl<'a> Gen<'a> {
                 _ => alt,
             };
         }
-        let w = self.rng.weighted(&[10, 10, 8, 8, 6, 5, 4, 3, 3, 5, 4, 4, 4, 3, 14, 3, 3, 4, 3, 3, 3, 2, 2, 3, 3, 2, 1, 2, 2, 1, 1]);
+        let w = self.rng.weighted(&[10, 10, 8, 8, 6, 5, 4, 3, 3, 5, 4, 4, 4, 3, 14, 3, 3, 4, 3, 3, 3, 2, 2, 3, 3, 2, 1, 2, 2, 1, 1, 2, 1]);
         // (for the shapes below: two names whose concatenation is a name too, if there are such)
         let (px, py) = {
             let ns = self.names.clone();
@@ -844,6 +844,9 @@ impl<'a> Gen<'a> {
         match w {
             // a tree wildcard at the edge of a *repetition* that is followed or preceded by text: the
             // separator between them is not optional (`<a/**/>b` does not match `ab`)
+            // a repetition of whole components with bounds on both sides: it reaches only so deep
+            31 => format!("<*/:{},{}>*", self.rng.range(0, 1), self.rng.range(1, 3)),
+            32 => format!("{}/<*/:1,{}>*", ex, self.rng.range(1, 3)),
             27 => format!("<{}/**/>{}", px, py),
             28 => format!("<{}/**/:1,2>{}/**", px, py),
             29 => format!("{}/<{}/**/>{}", ex, px, py),
